@@ -1,6 +1,9 @@
 \* flow B of C05: deviations on = what the shipped type.c / expr.c do
+\* Devs: deviations of the shipped code still open. Fixed in /repo and therefore removed (a regression is a VIOLATION):
+\* CondSameTypeNoConversion (ba99903), ConvertKeepsCompatible + SizeofSeesBitfield (4c7c95a), DerefDecayedArrayDropsQual (13d3f3d),
+\* UacKeepsWideEnum (60245bf)
 SPECIFICATION TSpec
 CONSTANTS
-  Devs = {"CondSameTypeNoConversion", "CompositeIsFirst", "UacKeepsWideEnum", "SizeofSeesBitfield", "ConvertKeepsCompatible", "ArrayQualOnArrayType", "DerefDecayedArrayDropsQual"}
+  Devs = {"CompositeIsFirst", "ArrayQualOnArrayType"}
 POSTCONDITION TraceAccepted
 CHECK_DEADLOCK FALSE
